@@ -250,6 +250,24 @@ theorem eventsRun_app (fuel : Nat) (s : State) (T) : eventsRun fuel (app s T) = 
   simp only [h0, runInternal_app, app_fault]
   split <;> rfl
 
+theorem spinLoop_app (fuel : Nat) : ∀ (n : Nat) (s : State) (T) (rc : Int),
+    spinLoop fuel n (app s T) rc = (app (spinLoop fuel n s rc).1 T, (spinLoop fuel n s rc).2) := by
+  intro n
+  induction n with
+  | zero => intro s T rc; rfl
+  | succ n ih =>
+    intro s T rc
+    simp only [spinLoop, runInternal_app, app_done, app_intr, app_fault]
+    split
+    · exact ih _ _ _
+    · rfl
+
+theorem eventsSpin_app (fuel : Nat) (s : State) (T) : eventsSpin fuel (app s T) = app (eventsSpin fuel s) T := by
+  unfold eventsSpin
+  have h0 : emit { app s T with cbcount := 0 } .spinBegin = app (emit { s with cbcount := 0 } .spinBegin) T := rfl
+  simp only [h0, spinLoop_app, app_fault]
+  split <;> rfl
+
 /-- **the step does not read the log** -/
 theorem stepTop_app (fuel : Nat) (s : State) (T) (t : Top) : stepTop fuel (app s T) t = app (stepTop fuel s t) T := by
   cases t with
@@ -261,6 +279,11 @@ theorem stepTop_app (fuel : Nat) (s : State) (T) (t : Top) : stepTop fuel (app s
     split
     · rfl
     · exact eventsRun_app fuel s T
+  | spin =>
+    simp only [stepTop, app_fault]
+    split
+    · rfl
+    · exact eventsSpin_app fuel s T
 
 
 /-! ## the lines `pmodel events` prints, concatenated, are the model's trace -/
